@@ -20,7 +20,8 @@
 //   a <lit> | p | o | n | k <lits> | s
 // reset        destroy (theories first: ~theory unregisters itself from the sat_core) and recreate everything
 // obs          the full observable state, canonical (see dump_obs)
-// mu           coverage statistics of the standing levels (see all_stats): "mu n=<levels> chk=<0/1> lra=<m/o/p>,.. idl=.. rdl=.. ov=.."
+// mu           coverage statistics of the standing levels (see all_stats): "mu n=<levels> chk=<0/1> lra=<m/o/p>,.. idl=.. rdl=.. ov=..
+//              ovl=<ov_theory layers> ovv=<variables recorded in them> ovc=<size of ov_theory's pending conflict>"
 // basis        "basis <basic LRA variables>" (diagnostics of the known finding; never compared)
 // kinds        "kinds <l|i|r|o|b per propositional variable>": which theory owns the variable
 // Every answer but the one of obs is
@@ -482,6 +483,12 @@ static void dump_mu()
         for (size_t k = 0; k < v->size(); ++k)
             o << (k ? "," : "") << ls_str((*v)[k]);
     }
+    // the OV instance of coq/smt/SatCoreOv.v: the theory state the search moves is the NUMBER of layers (= decision level), a
+    // layer's `vars` is never filled, no conflict is ever pending
+    size_t ov_layer_vars = 0;
+    for (const auto &l : N->ov.layers)
+        ov_layer_vars += l.vars.size();
+    o << " ovl=" << N->ov.layers.size() << " ovv=" << ov_layer_vars << " ovc=" << N->ov.cnfl.size();
     std::cout << o.str() << std::endl;
 }
 
